@@ -32,6 +32,19 @@ Theorem C09_list_elements_in_order : forall xs d,
   try_as_data (EList xs) = Ok d -> exists ds, d = PList ds /\ Forall2 (fun x p => try_as_data x = Ok p) xs ds.
 Proof. exact list_elements_in_order. Qed.
 
+From Tx3 Require Import Surface Lower Lower_ctor.
+(** the constructor alternative of a lowered record / variant constructor is the index of the
+    case the template names, with one field per declared field of that case - whatever value is
+    spread into it *)
+Theorem C09_constructor_is_named_case : forall p t f d c tyname case fields spread e td,
+  lower_expr p t f d c (SStruct tyname case fields spread) = Ok e ->
+  resolve p t tyname = Some (SymType td) ->
+  exists ctor decl fs,
+    index_of (fun cs => bool_decide (fst cs = from_option id "Default"%string case)) (td_cases td) = Some ctor /\
+    option_map snd (find (fun cs => bool_decide (fst cs = from_option id "Default"%string case)) (td_cases td)) = Some decl /\
+    e = EStruct (N.of_nat ctor) fs /\ length fs = length decl.
+Proof. exact struct_lowers_to_named_case. Qed.
+
 Print Assumptions C09_decode_encode.
 Print Assumptions C09_int_any_size.
 Print Assumptions C09_bytes_any_length.
@@ -39,3 +52,4 @@ Print Assumptions C09_constr_tags.
 Print Assumptions C09_fields_in_declaration_order.
 Print Assumptions C09_map_entries_in_order.
 Print Assumptions C09_list_elements_in_order.
+Print Assumptions C09_constructor_is_named_case.
